@@ -13,7 +13,8 @@ RULE = ("part 1 (E1 x E3): every portfolio of the generator (contracts, transpor
         "three times from the same choice vector, with all rates and durations expressed for main time unit h, d and min, and every "
         "ordered pair of units is compared; part 2: grids with unequal steps (two DST days, calendar months, autumn-switch hours) with "
         "a must-run contract, inflow, holding and running costs against R1/R2; distinct = canonical choice vector; non-trivial = "
-        "optimal in all units with non-zero dispatch")
+        "optimal in all units with non-zero dispatch; part 3: every duration parameter with 1..11 hours, and start / shutdown ramp profiles "
+        "with a unit 0..3 hours into its start ramp, on an hourly grid in the three units")
 ASSUMPTIONS = ["the scenario generator converts rates (x unit length) and durations (/ unit length); volumes, prices and per-event costs are unit free",
                "dispatch is compared through the plug-in oracle (R2) where R2 models the portfolio; values always",
                "elapsed time per step is taken from UTC instants (R1)"]
@@ -27,7 +28,7 @@ FEATS = dict(price_pairs=S.PRICE_PAIRS[:1], bases=["one", "two"], extras=["mc", 
              sto_eff=1, sto_costs=1, sto_inflow=1, sto_levels=1, sto_mip=[6.0],
              tr_eff=1, tr_costs=1, tr_takes=1, uc_caps=1, uc_ramp=1, uc_times=1, uc_costs=1)
 FEATS_UNEQUAL = dict(grids=["3xd_spring", "3xd_autumn", "3xMS", "7xh_autumn", "12h_partial"], price_pairs=S.PRICE_PAIRS[:1],
-                     bases=["one"], extras=["dem", "plant"], caps=1, wacc=1, sto_inflow=1, sto_costs=1, sto_eff=1, uc_costs=1, uc_caps=1)
+                     bases=["one"], extras=["dem", "plant"], caps=1, wacc=1, window=1, sto_inflow=1, sto_costs=1, sto_eff=1, uc_costs=1, uc_caps=1)
 
 
 def gen_unit(unit):
@@ -53,7 +54,18 @@ def build_cases(tier):
             c["family"] = "durations"
             dur.append(c)
     fam3 = (dur, dict(family="durations", states=len(dur), transitions=len(dur), executions=len(dur)))
-    cases, stats = merge_cases(fam1, fam2, fam3)
+    # start / shutdown ramp profiles (rates per main time unit) with a unit that is 0..3 hours into its start ramp
+    prof = []
+    for profile in ("start3", "shutdown2", "both"):
+        for running in (0, 1, 2, 3, 20):
+            for ramp in (None, 3.0):
+                for pw in (0, 1):
+                    c = dict(kind="profiles", profile=profile, running=running, ramp=ramp, pw=pw)
+                    c["key"] = chash(c)
+                    c["family"] = "profiles"
+                    prof.append(c)
+    fam4 = (prof, dict(family="profiles", states=len(prof), transitions=len(prof), executions=len(prof)))
+    cases, stats = merge_cases(fam1, fam2, fam3, fam4)
     stats["bound"] = dict(K=K, unit_pairs=6)
     return cases, stats
 
@@ -63,6 +75,8 @@ def run_case(case):
         return run_units(case)
     if case["kind"] == "durations":
         return run_durations(case)
+    if case["kind"] == "profiles":
+        return run_profiles(case)
     return run_unequal(case)
 
 
@@ -102,6 +116,42 @@ def run_durations(case):
     tags = ["durations", "param:" + param, "hours:%d" % k]
     if len(set(vals.values())) > 1:
         V.append(viol("c12.duration_units", "plant with %s = %d hours on an hourly grid: (status, value) per main time unit %s" % (param, k, vals), tags, ["durations", "param:" + param]))
+    res["nontrivial"] = vals["h"][0] == "optimal"
+    return res
+
+
+def run_profiles(case):
+    """a plant with start / shutdown ramp profiles on an hourly grid with main time unit h, d, min"""
+    res = dict(status="ok", violations=[], counters={})
+    V = res["violations"]
+    vals = {}
+    for unit, gname in (("h", "12xh"), ("d", "12xh_d"), ("min", "12xh_min")):
+        gj = dict(S.GRIDS[gname])
+        g = Grid.from_json(gj)
+        T = g.T
+        p = [1.0, 1.0, 9.0, 9.0, 9.0, 1.0, 1.0, 1.0, 9.0, 9.0, 9.0, 9.0] if case["pw"] == 0 else [9.0, 9.0, 9.0, 9.0, 1.0, 1.0, 1.0, 1.0, 1.0, 9.0, 9.0, 1.0]
+        # (the time axis of the profiles is given explicitly in hours; their values are rates per main time unit)
+        a = dict(type="Plant", name="pl", nodes=["n1"], price="fuelc", min_cap=S.r(4.0, g), max_cap=S.r(10.0, g), ramp_freq="h")
+        if case["profile"] in ("start3", "both"):
+            a.update(start_ramp_lower_bounds=[S.r(1.0, g), S.r(2.0, g), S.r(3.0, g)], start_ramp_upper_bounds=[S.r(1.0, g), S.r(2.5, g), S.r(3.0, g)])
+        if case["profile"] in ("shutdown2", "both"):
+            a.update(shutdown_ramp_lower_bounds=[S.r(3.0, g), S.r(1.0, g)], shutdown_ramp_upper_bounds=[S.r(3.0, g), S.r(2.0, g)])
+        if case["running"]:
+            a.update(time_already_running=S.d_(case["running"], g), last_dispatch=S.r({1: 1.0, 2: 2.0, 3: 3.0}.get(case["running"], 6.0), g))
+        else:
+            a.update(time_already_off=S.d_(20, g))
+        if case["ramp"]:
+            a["ramp"] = S.r(case["ramp"], g)
+        scn = dict(grid=gj, prices=dict(p=p, fuelc=[4.0] * T), mode="mono",
+                   assets=[dict(type="SimpleContract", name="mkt", nodes=["n1"], price="p", min_cap=S.r(-20.0, g), max_cap=S.r(20.0, g)), a])
+        r = ImplRun(scn, solver="SCIPY", want_output=False)
+        vals[unit] = (r.status, None if r.value is None else round(r.value, 5))
+    res["fingerprint"] = repr(sorted(vals.items()))
+    res["outcome"] = "prof:%s" % (vals["h"][0],)
+    tags = ["profiles", "profile:" + case["profile"], "running:%d" % case["running"]]
+    if len(set(vals.values())) > 1:
+        V.append(viol("c12.profile_units", "plant with ramp profiles (%s), %d hours already running, ramp %s: (status, value) per main time unit %s"
+                      % (case["profile"], case["running"], case["ramp"], vals), tags, ["profiles", "profile:" + case["profile"]]))
     res["nontrivial"] = vals["h"][0] == "optimal"
     return res
 
